@@ -1,7 +1,7 @@
 """C01 — every submitted work item runs exactly once and none is stranded."""
 import os, re, subprocess
 from common import sh
-from lanetrace import run_lane
+from lanetrace import run_lane, forced
 from props.C02 import replay
 
 META = {
@@ -27,6 +27,8 @@ def run(ctx):
                         "pthread_create succeeds; the workqueue monitor classifies blocked threads correctly (observed by the pool scenario)"]
     cfg = [(2, 600, 1), (4, 400, 0), (8, 300, 0), (12, 200, 0)] if not ctx.thorough else [(2, 5000, 1), (2, 5000, 0), (4, 3000, 0), (8, 2500, 0), (12, 2000, 0), (16, 1500, 0), (3, 3000, 1)]
     run_lane(ctx, cfg, what="c01")
+    # regression for F14 (repaired): pending-barrier reservation + refused unlock + suspension must not strand the queue
+    forced(ctx, "f14_pending_barrier", "F14", "lane:stranded:pending-barrier-reserved-twice", "F14")
     # the thread pool: bookkeeping trace + the blocked-pool scenario of the property statement
     h = ctx.harness("c01_pool")
     drv = ctx.driver()
